@@ -71,6 +71,7 @@ def model_code(m, path):
     A('pub const TYPES: &[&str] = &[%s];' % ', '.join(json.dumps(t) for t in tlist))
     A('pub const PLAIN_NEW: &[bool] = &[%s];' % ', '.join('true' if t in plain_new else 'false' for t in tlist))
     A('pub const RELS: &[(&str, &[usize], bool, bool)] = &[%s];' % ', '.join('(%s, &[%s], %s, %s)' % (json.dumps(r), ', '.join(str(tlist.index(x)) for x in m.rel_types[r]), 'true' if r in funcs else 'false', 'true' if r in defs else 'false') for r in m.rels))
+    A('pub const HAS_NONSURJECTIVE_RULES: bool = %s;' % ('true' if re.search(r'^// - \w+Def\(', m.src.text, re.M) else 'false'))
     A('pub type M = %s;' % name)
     A('pub fn new_model() -> M { M::new() }')
     A('pub fn count(m: &M, ty: usize) -> usize { match ty { %s _ => unreachable!() } }' % ' '.join('%d => m.%s_equalities.len(),' % (i, t) for i, t in enumerate(tlist)))
